@@ -22,6 +22,207 @@ func init() {
 	register("C02", "", nil, ruleC02Borrowed)
 	register("C08", "", nil, ruleC08NamesOption)
 	register("C19", "", nil, ruleC19Borrowed)
+	// seventh round
+	register("C03", "", nil, ruleC03Borrowed2)
+	register("C05", "", nil, ruleC05JSONExact)
+	register("C06", "", nil, ruleC06Borrowed)
+	register("C07", "", nil, ruleC07Borrowed2, ruleC07UnknownKeys)
+	register("C08", "", nil, ruleC08Borrowed, ruleC08Description)
+	register("C09", "", nil, ruleC09Borrowed2)
+	register("C12", "", nil, ruleC12Narrow)
+	register("C14", "", nil, ruleC14ConfigErrors)
+}
+
+// ruleC03Borrowed2: every parent header is read (C16.grammar, header and
+// parent clauses) and every tag waiting for a tag is notified (C09.pending).
+func ruleC03Borrowed2(c *Ctx) {
+	c.RuleAlias = map[string]string{"C16.grammar": "C03.grammar", "C09.pending": "C03.pending"}
+	c.KeyOnly = func(key string) bool {
+		return strings.HasPrefix(key, "header:") || strings.HasPrefix(key, "ParseCommit:Parents") || strings.Contains(key, "notify") || strings.Contains(key, "tagRecord")
+	}
+	defer func() { c.RuleAlias = nil; c.KeyOnly = nil }()
+	ruleC16Grammar(c)
+	ruleC09Pending(c)
+}
+
+// ruleC05JSONExact: a saturated or large 64-bit quantity is emitted with
+// its exact digits only if the report is marshalled from its typed value
+// (C19.json, typed-value clause).
+func ruleC05JSONExact(c *Ctx) {
+	c.RuleAlias = map[string]string{"C19.json": "C05.json-exact"}
+	c.KeyOnly = func(key string) bool { return key == "output-typed" }
+	defer func() { c.RuleAlias = nil; c.KeyOnly = nil }()
+	ruleC19JSON(c)
+}
+
+// ruleC06Borrowed: a selected reference is traversed: the walk decision of
+// a root is the selection's verdict, nothing else (C01.rootset, collect
+// clauses).
+func ruleC06Borrowed(c *Ctx) {
+	c.KeyOnly = func(key string) bool { return strings.HasPrefix(key, "collect:") }
+	defer func() { c.KeyOnly = nil }()
+	c.checkCollect("C06.walk")
+}
+
+// ruleC07Borrowed2: a group's regexp rules match whole names (C06.anchor).
+func ruleC07Borrowed2(c *Ctx) {
+	c.RuleAlias = map[string]string{"C06.anchor": "C07.anchor"}
+	defer func() { c.RuleAlias = nil }()
+	ruleC06Anchor(c)
+}
+
+// ruleC08Borrowed: one explicit root per ROOT argument, carrying the object
+// that very argument resolves to (C01.rootset, explicit clauses): a second
+// root under the same name for another object makes the name cite an object
+// it does not resolve to.
+func ruleC08Borrowed(c *Ctx) {
+	c.RuleAlias = map[string]string{"C01.rootset": "C08.root-name"}
+	c.KeyOnly = func(key string) bool { return strings.Contains(key, "explicit") || strings.Contains(key, "every-arg") }
+	defer func() { c.RuleAlias = nil; c.KeyOnly = nil }()
+	ruleC01Rootset(c)
+}
+
+// ruleC09Borrowed2: an entry is counted whether its subtree was delivered
+// before or after the tree (C02.effects, entry-count clause).
+func ruleC09Borrowed2(c *Ctx) {
+	c.RuleAlias = map[string]string{"C02.effects": "C09.entry-count"}
+	c.KeyOnly = func(key string) bool { return strings.Contains(key, "entry-count") }
+	defer func() { c.RuleAlias = nil; c.KeyOnly = nil }()
+	ruleC02Effects(c)
+}
+
+// ruleC12Narrow: the value handed to the humaner is the counter itself, not
+// a narrowed copy (C05.discipline, conversion clauses).
+func ruleC12Narrow(c *Ctx) {
+	c.RuleAlias = map[string]string{"C05.discipline": "C12.value"}
+	c.KeyOnly = func(key string) bool { return strings.HasPrefix(key, "narrow:") || strings.HasPrefix(key, "rawconv:") }
+	defer func() { c.RuleAlias = nil; c.KeyOnly = nil }()
+	ruleC05Discipline(c)
+}
+
+// ruleC14ConfigErrors: an invalid sizer.* value is refused like the invalid
+// option value would be: only "key is unset" (exit status 1) is read as
+// absence (C10.errflow on the gitconfig accessors).
+func ruleC14ConfigErrors(c *Ctx) {
+	c.RuleAlias = map[string]string{"C10.errflow": "C14.config-errors"}
+	c.KeyOnly = func(key string) bool { return strings.Contains(key, ").Config") && strings.Contains(key, "Default:") }
+	defer func() { c.RuleAlias = nil; c.KeyOnly = nil }()
+	ruleC10Errflow(c)
+}
+
+// ruleC08Description: the description printed for an object is its id
+// followed by its path exactly as the resolver built it; an abbreviated or
+// otherwise edited path is resolved by git's own precedence rules and may
+// name another object (branch `v2` next to tag `v2`).
+func ruleC08Description(c *Ctx) {
+	const rule = "C08.description"
+	pt := c.namedType("/sizes", "Path")
+	if pt == nil {
+		return
+	}
+	str := c.methodOf(types.NewPointer(pt), "String")
+	pathFn := c.methodOf(types.NewPointer(pt), "Path")
+	if str == nil || pathFn == nil {
+		c.notDecided(rule, "String", token.NoPos, "(*sizes.Path).String / Path not found")
+		return
+	}
+	var pathCall *ssa.Call
+	for _, call := range callsTo(str, pathFn) {
+		pathCall = call
+	}
+	if pathCall == nil {
+		c.violate(rule, "String:path", str.Pos(), fnName(str), "the description is not built from the resolver's path")
+		return
+	}
+	// every use of the path inside String: comparison with "", or an operand of the formatting call
+	ok := true
+	var bad ssa.Instruction
+	var visit func(v ssa.Value, depth int)
+	visit = func(v ssa.Value, depth int) {
+		refs := v.Referrers()
+		if refs == nil || depth > 3 {
+			return
+		}
+		for _, r := range *refs {
+			switch x := r.(type) {
+			case *ssa.BinOp:
+				if x.Op != token.EQL && x.Op != token.NEQ {
+					ok, bad = false, x
+				}
+			case *ssa.MakeInterface:
+				// printed as it is
+			case *ssa.Phi:
+				visit(x, depth+1)
+			case *ssa.Return:
+			case *ssa.Call:
+				if q := calleeQ(&x.Call); q != "builtin len" {
+					ok, bad = false, x
+				}
+			case *ssa.Store:
+				if _, isElem := x.Addr.(*ssa.IndexAddr); !isElem {
+					ok, bad = false, x
+				}
+			default:
+				ok, bad = false, r
+			}
+		}
+	}
+	visit(pathCall, 0)
+	if ok {
+		c.hold(rule, "String:path", pathCall.Pos(), "the path is printed as the resolver built it")
+	} else {
+		c.violate(rule, "String:path", bad.Pos(), fnName(str), "the path is edited between the resolver and the description (trimmed, shortened or re-spelled): the text shown is then resolved by git's own rules and need not name the cited object")
+	}
+}
+
+// ruleC07UnknownKeys: a refgroup section may hold keys of nested groups and
+// keys this version does not know; the function that folds a group's
+// entries into its filter fails only when a filter cannot be built, never
+// because a key is unknown.
+func ruleC07UnknownKeys(c *Ctx) {
+	const rule = "C07.hierarchy"
+	aug := c.augmentFn()
+	if aug == nil {
+		return // C15.scope reports the missing function
+	}
+	bad := false
+	for _, ret := range returnsOf(aug) {
+		if len(ret.Results) == 0 {
+			continue
+		}
+		for _, v := range c.resultValues(ret, len(ret.Results)-1) {
+			if isNilConst(v) {
+				continue
+			}
+			// an error built here (not one handed up from a callee)
+			call, isCall := c.resolve(v).(*ssa.Call)
+			if !isCall {
+				continue
+			}
+			if q := calleeQ(&call.Call); q != "fmt.Errorf" && q != "errors.New" {
+				continue
+			}
+			wraps := false
+			for _, a := range c.sliceElemValues(call.Call.Args[len(call.Call.Args)-1]) {
+				if mi, ok := a.(*ssa.MakeInterface); ok && isErrorType(mi.X.Type()) {
+					wraps = true
+				}
+				if ci, ok := a.(*ssa.ChangeInterface); ok && isErrorType(ci.X.Type()) {
+					wraps = true
+				}
+				if a != nil && isErrorType(a.Type()) {
+					wraps = true
+				}
+			}
+			if !wraps {
+				bad = true
+				c.violate(rule, "augment:unknown-key", ret.Pos(), fnName(aug), "folding a group's gitconfig entries fails with an error of its own (not one from building a filter): a section that also holds the keys of nested groups, or a key this version does not know, aborts the report")
+			}
+		}
+	}
+	if !bad {
+		c.hold(rule, "augment:unknown-key", aug.Pos(), "entries with unknown keys are ignored; the only errors are those of the filter constructors")
+	}
 }
 
 // ruleC02Borrowed: the maxima range over the reachable objects only if
